@@ -57,3 +57,19 @@ Proof.
   vm_compute. repeat split; reflexivity.
 Qed.
 Print Assumptions C04_uni_atomic_refuted_two_streams.
+
+(* The same root cause needs neither overlapping sends nor two streams: MAX_STREAMS = 1, one stream, ONE producer sending
+   three events one after the other - the third samples the length (2) at its reservation, the stream then drains both
+   earlier events and parks, the third is published with len_after = 3 > MAX_STREAMS + 1 and wakes nobody. *)
+Theorem C04_uni_atomic_refuted_single_producer :
+  exists progs sched,
+    let s := ua_crun 8 1 1 progs sched in
+    csendok (clog _ s) = [1; 2; 3] /\ cyields (clog _ s) = [1; 2] /\
+    tail (q _ s) - head (q _ s) = 1 /\
+    map (cthr _ s) [0; 1]%nat = [XParked 0; XIdle] /\ notified (m _ s) 0%nat = false.
+Proof.
+  exists [[CoDrive 0]; [CoSend 1; CoSend 2; CoSend 3]].
+  exists (repeat 1 8 ++ repeat 1 8 ++ [1;1] ++ repeat 0 40 ++ repeat 1 4 ++ repeat 0 6)%nat.
+  vm_compute. repeat split; reflexivity.
+Qed.
+Print Assumptions C04_uni_atomic_refuted_single_producer.
